@@ -12,6 +12,7 @@ adjointness of `erode_sub(·,h)`/`dilate_add(·,h)` for the heights of the eleme
 -/
 import Mahotas.Proofs.C02Laws
 import Mahotas.Proofs.StarCheck
+import Mahotas.Proofs.C02Families
 open Mahotas Mahotas.C01 Mahotas.C02
 
 /-- **the scalar interface holds for every unsigned dtype** (generic in the range `[0, hi]`,
@@ -195,3 +196,210 @@ example : C14.symStarB (support [3, 3] #[1, 1, 1, 1, 1, 1, 1, 1, 1] true) = true
 example : C14.symStarB (support [5, 3] (Array.replicate 15 1) false) = true := by decide
 example : C14.symStarB (support [3, 3, 3] (crossElem 3 1) true) = true := by decide
 example : C14.symStarB (support [5, 5] (diskElem 2 2) true) = true := by decide
+
+/-! ## Round 2 — the element hypotheses proved for whole families
+
+`CrossBoxDisk d S bc` (`Proofs/C02Families.lean`): the element `(S, bc)` is `crossElem d r` on the shape
+`3 × … × 3` (what `get_structuring_elem` builds; any radius `r`), or `diskElem d r` on the shape
+`(2r+1) × … × (2r+1)` (what `disk(r, d)` builds; any radius), or an all-ones box of rank `d` with arbitrary odd
+sides. `CentredCrossBoxDisk` restricts to `r ≥ 0` (cross) / `r ≥ 1` (disk; `disk(0)` is empty), where the
+centre is a member. `UnsignedOrBool dt`: an unsigned integer dtype (range `[0, hi]`, `hi ≥ 1`) or bool.
+In every corollary below the support is the one the driver builds for the dtype,
+`support S bc dt.isBool` (compressed for bool, every entry kept otherwise), and **no hypothesis about
+the element remains** besides membership in the family. -/
+
+/-- what the family predicates say, spelled out (both hold by unfolding the definitions) -/
+theorem C02_cross_box_disk_family (d : Nat) (S : List Nat) (bc : Array Int) :
+    (CrossBoxDisk d S bc ↔
+      (∃ r : Int, S = List.replicate d 3 ∧ bc = crossElem d r) ∨
+      (∃ r : Nat, S = List.replicate d (2 * r + 1) ∧ bc = diskElem d r) ∨
+      (S.length = d ∧ (∀ b ∈ S, b % 2 = 1) ∧ ∀ i, i < shapeSize S → bc.getD i 0 = 1)) ∧
+    (CentredCrossBoxDisk d S bc ↔
+      (∃ r : Int, 0 ≤ r ∧ S = List.replicate d 3 ∧ bc = crossElem d r) ∨
+      (∃ r : Nat, 1 ≤ r ∧ S = List.replicate d (2 * r + 1) ∧ bc = diskElem d r) ∨
+      (S.length = d ∧ (∀ b ∈ S, b % 2 = 1) ∧ ∀ i, i < shapeSize S → bc.getD i 0 = 1)) ∧
+    (UnsignedOrBool (dtU 8) ∧ UnsignedOrBool (dtU 16) ∧ UnsignedOrBool (dtU 32) ∧ UnsignedOrBool (dtU 64) ∧
+      UnsignedOrBool dtBool) :=
+  ⟨Iff.rfl, Iff.rfl, Or.inl ⟨wf_u8, rfl⟩, Or.inl ⟨wf_u16, rfl⟩, Or.inl ⟨wf_u32, rfl⟩, Or.inl ⟨wf_u64, rfl⟩,
+    Or.inr rfl⟩
+
+/-- **every hypothesis the C02 theorems put on the structuring element, for the whole families.** For
+every rank `d`, every radius and every odd box shape: the support of a cross `crossElem d r`, a disk
+`diskElem d r` or an all-ones odd box, built either way the driver builds it (`compress = true` for bool
+images, `false` otherwise),
+* is symmetric and coordinate-wise star-shaped (`SymStar`, the hypothesis of `C02_bool_duality` and
+  `C02_scatter_gather_symmetric`), has all offsets of length `d` (the `hlen` hypotheses) and all heights in
+  `{0, 1}`;
+* compressed, has all heights `= 1` (so `≠ 0`: the `hsup` hypothesis of `C02_scalars_bool` /
+  `C02_bool_duality`);
+* for every unsigned dtype and bool satisfies the scalar interface `Scalars`, has all entries in range
+  (hypothesis of `C02_scalars_unsigned`, `C02_dilate_below_max`), and its members are exactly the compressed
+  support;
+* when centred (cross `r ≥ 0`, disk `r ≥ 1`, any box) contains the centre `(0,…,0)` with height 1 in both
+  supports, and `CentreMember` holds (hypothesis of `C02_cerode_bounds` / `C02_cdilate_bounds`). -/
+theorem C02_cross_box_disk_symstar (d : Nat) (S : List Nat) (bc : Array Int) (h : CrossBoxDisk d S bc) :
+    (∀ c : Bool,
+      SymStar (support S bc c) ∧ (∀ kh ∈ support S bc c, kh.1.length = d) ∧
+      (∀ kh ∈ support S bc c, kh.2 = 0 ∨ kh.2 = 1)) ∧
+    (∀ kh ∈ support S bc true, kh.2 = 1) ∧
+    (∀ dt : DT, UnsignedOrBool dt →
+      Scalars dt (support S bc dt.isBool) ∧ (∀ kh ∈ support S bc dt.isBool, dt.InRange kh.2) ∧
+      (support S bc dt.isBool).filter (isMember dt) = support S bc true) ∧
+    (CentredCrossBoxDisk d S bc →
+      (List.replicate d 0, 1) ∈ support S bc true ∧ (List.replicate d 0, 1) ∈ support S bc false ∧
+      ∀ dt : DT, UnsignedOrBool dt → CentreMember dt (support S bc dt.isBool)) := by
+  have hr := h.regular
+  refine ⟨fun c => ⟨symStar_family hr c, hr.len c, hr.heights c⟩, hr.ones, ?_, ?_⟩
+  · intro dt hdt
+    refine ⟨scalars_family dt hdt hr, ?_, ?_⟩
+    · intro kh hkh
+      have h01 := hr.heights _ kh hkh
+      rcases hdt with ⟨wf, hlo⟩ | rfl
+      · have := wf.hi_pos
+        unfold DT.InRange
+        rcases h01 with h0 | h1 <;> omega
+      · unfold DT.InRange dtBool
+        rcases h01 with h0 | h1 <;> simp only <;> omega
+    · rcases hdt with ⟨wf, hlo⟩ | rfl
+      · rw [wf.notBool]; exact support_filter_unsigned dt hlo wf.notBool S bc
+      · exact support_filter_bool S bc
+  · intro hc
+    exact ⟨hc.centre, ((mem_support_true_iff S bc _).mp hc.centre).1,
+      fun dt hdt => centreMember_family dt hdt hc⟩
+
+/-- **adjunction for every cross / box / disk**: `dilate(f) ≤ g ↔ f ≤ erode(g)` for every unsigned or
+bool dtype, images of every rank and shape, whenever no pixel of `f` or no pixel of `g` sits at the dtype
+maximum (nothing for bool) — a hypothesis about the images only (the heights are 0 or 1). -/
+theorem C02_adjunction_cross_box_disk (dt : DT) (hdt : UnsignedOrBool dt) (F G : Img Int) (S : List Nat)
+    (bc : Array Int) (hfam : CrossBoxDisk F.shape.length S bc) (hshape : G.shape = F.shape)
+    (hs : ∀ d ∈ F.shape, 0 < d) (hF : RangeImg dt F) (hG : RangeImg dt G)
+    (hc : HiClear dt F ∨ HiClear dt G) :
+    LeImg (dilateImg dt F (support S bc dt.isBool)) G ↔ LeImg F (erodeImg dt G (support S bc dt.isBool)) :=
+  adjunction dt _ (scalars_family dt hdt hfam.regular) F G hshape hs (hfam.regular.len _) hF hG
+    (noSat_family dt hfam.regular F G hshape hs rfl _ hc)
+
+/-- **opening by any cross / box / disk is anti-extensive and idempotent** (every rank, shape, radius;
+unsigned dtypes and bool), provided no pixel of `g` sits at the dtype maximum (nothing for bool). -/
+theorem C02_open_idempotent_cross_box_disk (dt : DT) (hdt : UnsignedOrBool dt) (G : Img Int) (S : List Nat)
+    (bc : Array Int) (hfam : CrossBoxDisk G.shape.length S bc) (hs : ∀ d ∈ G.shape, 0 < d)
+    (hG : RangeImg dt G) (hc : HiClear dt G) :
+    let sup := support S bc dt.isBool
+    LeImg (openModel dt G sup) G ∧
+    ∀ j, j < shapeSize G.shape →
+      (openModel dt (openModel dt G sup) sup).data.getD j 0 = (openModel dt G sup).data.getD j 0 :=
+  ⟨open_le dt _ (scalars_family dt hdt hfam.regular) G hs (hfam.regular.len _) hG hc,
+   open_idem dt _ (scalars_family dt hdt hfam.regular) G hs (hfam.regular.len _) hG hc⟩
+
+/-- **closing by any cross / box / disk is extensive and idempotent**, provided every pixel satisfies
+`f + 1 < hi` (nothing for bool): the heights of these elements are 0 or 1, so the dilation stays below the
+maximum. -/
+theorem C02_close_idempotent_cross_box_disk (dt : DT) (hdt : UnsignedOrBool dt) (F : Img Int) (S : List Nat)
+    (bc : Array Int) (hfam : CrossBoxDisk F.shape.length S bc) (hs : ∀ d ∈ F.shape, 0 < d)
+    (hF : RangeImg dt F)
+    (hcl : dt.isBool = true ∨ ∀ i, i < shapeSize F.shape → F.data.getD i 0 + 1 < dt.hi) :
+    let sup := support S bc dt.isBool
+    LeImg F (closeModel dt F sup) ∧
+    ∀ j, j < shapeSize F.shape →
+      (closeModel dt (closeModel dt F sup) sup).data.getD j 0 = (closeModel dt F sup).data.getD j 0 := by
+  have hr := hfam.regular
+  have sc := scalars_family dt hdt hr
+  have hcd := hiClear_dilate_family dt hdt hr F hs hF hcl
+  exact ⟨le_close dt _ sc F hs (hr.len _) hF (noSat_of_hiClear dt _ sc F _ rfl hs (hr.len _) hcd),
+    close_idem dt _ sc F hs (hr.len _) hF hcd⟩
+
+/-- **opening and closing by any cross / box / disk are increasing** — no hypothesis beyond representable
+values. -/
+theorem C02_open_close_increasing_cross_box_disk (dt : DT) (hdt : UnsignedOrBool dt) (F G : Img Int)
+    (S : List Nat) (bc : Array Int) (hfam : CrossBoxDisk F.shape.length S bc) (hshape : G.shape = F.shape)
+    (hs : ∀ d ∈ F.shape, 0 < d) (hF : RangeImg dt F) (hG : RangeImg dt G) (hle : LeImg F G) :
+    let sup := support S bc dt.isBool
+    LeImg (openModel dt F sup) (openModel dt G sup) ∧ LeImg (closeModel dt F sup) (closeModel dt G sup) :=
+  C02_open_close_increasing dt _ (scalars_family dt hdt hfam.regular) F G hshape hs (hfam.regular.len _)
+    hF hG hle
+
+/-- **conditional operators with any centred cross / box / disk**: `g ≤ cerode(f, g) ≤ max(f, g)` and
+`min(f, g) ≤ cdilate(f, g, Bc, n) ≤ g` at every pixel, for every iteration count `n`, every unsigned dtype
+and bool, saturation included — no hypothesis on the element. -/
+theorem C02_cerode_cdilate_bounds_cross_box_disk (dt : DT) (hdt : UnsignedOrBool dt) (f g : Img Int)
+    (S : List Nat) (bc : Array Int) (hfam : CentredCrossBoxDisk f.shape.length S bc)
+    (hshape : g.shape = f.shape) (hs : ∀ d ∈ f.shape, 0 < d) (hf : RangeImg dt f) (hg : RangeImg dt g)
+    (n : Nat) :
+    let sup := support S bc dt.isBool
+    ∀ i, i < shapeSize f.shape →
+      (g.data.getD i 0 ≤ (cerodeModel dt f g sup).data.getD i 0 ∧
+       (cerodeModel dt f g sup).data.getD i 0 ≤ max (f.data.getD i 0) (g.data.getD i 0)) ∧
+      (min (f.data.getD i 0) (g.data.getD i 0) ≤ (cdilateModel dt f g sup n).data.getD i 0 ∧
+       (cdilateModel dt f g sup n).data.getD i 0 ≤ g.data.getD i 0) := by
+  have hr := hfam.toFamily.regular
+  have sc := scalars_family dt hdt hr
+  have cm := centreMember_family dt hdt hfam
+  exact fun i hi =>
+    ⟨cerode_bounds dt _ sc cm f g hshape hs (hr.len _) hf hg i hi,
+     cdilate_bounds dt _ sc cm f g hshape hs (hr.len _) hf hg n i hi⟩
+
+/-- **top-hats with any cross / box / disk are exact differences**: `tophat_open(f) = f − open(f)` and
+`tophat_close(f) = close(f) − f` as integers at every pixel when `f + 1 < hi` everywhere (nothing for
+bool). -/
+theorem C02_tophats_cross_box_disk (dt : DT) (hdt : UnsignedOrBool dt) (f : Img Int) (S : List Nat)
+    (bc : Array Int) (hfam : CrossBoxDisk f.shape.length S bc) (hs : ∀ d ∈ f.shape, 0 < d)
+    (hf : RangeImg dt f)
+    (hcl : dt.isBool = true ∨ ∀ i, i < shapeSize f.shape → f.data.getD i 0 + 1 < dt.hi) :
+    let sup := support S bc dt.isBool
+    ∀ i, i < shapeSize f.shape →
+      (tophatOpenModel dt f sup).data.getD i 0 = f.data.getD i 0 - (openModel dt f sup).data.getD i 0 ∧
+      (tophatCloseModel dt f sup).data.getD i 0 = (closeModel dt f sup).data.getD i 0 - f.data.getD i 0 :=
+  C02_tophats dt _ (scalars_family dt hdt hfam.regular) f hs (hfam.regular.len _) hf
+    (hiClear_of_below dt f hcl) (hiClear_dilate_family dt hdt hfam.regular f hs hf hcl)
+
+/-- **Boolean duality for every cross / box / disk**: `dilate(f) = ¬ erode(¬ f)` at every pixel of every
+0/1 image of every rank and shape (positive axis lengths), for `crossElem d r` and `diskElem d r` of every
+radius and every all-ones box of odd sides — no hypothesis on the element. -/
+theorem C02_bool_duality_cross_box_disk (F : Img Int) (S : List Nat) (bc : Array Int)
+    (hfam : CrossBoxDisk F.shape.length S bc) (hs : ∀ d ∈ F.shape, 0 < d) (hF : RangeImg dtBool F) :
+    ∀ j, j < shapeSize F.shape →
+      (dilateImg dtBool F (support S bc true)).data.getD j 0 =
+        1 - (erodeImg dtBool (notImg F) (support S bc true)).data.getD j 0 :=
+  C02_bool_duality F _ (fun kh hkh => by rw [hfam.regular.ones kh hkh]; decide) hs
+    (hfam.regular.len true) hF (symStar_true hfam.regular)
+
+/-- **F12 for every cross / box / disk**, on every image shape of the rank of the element and for both
+ways the driver builds the support: pixel `i` reaches `j` through a clamped offset iff `j` reaches `i`. -/
+theorem C02_scatter_gather_symmetric_cross_box_disk (shape : List Nat) (S : List Nat) (bc : Array Int)
+    (hfam : CrossBoxDisk shape.length S bc) (hs : ∀ d ∈ shape, 0 < d) (c : Bool) :
+    ScatterGatherSym shape (support S bc c) :=
+  scatterGatherSym_of_symStar shape _ hs (hfam.regular.len c) (symStar_family hfam.regular c)
+
+/-! non-vacuity of Round 2: the families are inhabited in every rank (3-D cross of radius 2, the 5×5 disk,
+    a 5×3 box, a 1-D box, the rank-0 box), the Boolean checker agrees on instances, and the corollaries
+    apply to a concrete bool image and a concrete uint8 image without any further hypothesis on the
+    element. -/
+example : CentredCrossBoxDisk 3 [3, 3, 3] (crossElem 3 2) := Or.inl ⟨2, by decide, rfl, rfl⟩
+example : CentredCrossBoxDisk 2 [5, 5] (diskElem 2 2) := Or.inr (Or.inl ⟨2, by decide, rfl, rfl⟩)
+example : CentredCrossBoxDisk 2 [5, 3] (Array.replicate 15 1) := Or.inr (Or.inr ⟨rfl, by decide, by decide⟩)
+example : CrossBoxDisk 2 [1, 1] (diskElem 2 0) := Or.inr (Or.inl ⟨0, rfl, rfl⟩)
+example : SymStar (support [5, 5] (diskElem 2 2) true) ∧ SymStar (support [5, 5] (diskElem 2 2) false) :=
+  ⟨((C02_cross_box_disk_symstar 2 _ _ (Or.inr (Or.inl ⟨2, rfl, rfl⟩))).1 true).1,
+   ((C02_cross_box_disk_symstar 2 _ _ (Or.inr (Or.inl ⟨2, rfl, rfl⟩))).1 false).1⟩
+
+example :
+    let F : Img Int := { shape := [2, 3], data := #[0, 1, 0, 0, 0, 1] }
+    ∀ j, j < 6 →
+      (dilateImg dtBool F (support [3, 3] (crossElem 2 1) true)).data.getD j 0 =
+        1 - (erodeImg dtBool (notImg F) (support [3, 3] (crossElem 2 1) true)).data.getD j 0 := by
+  intro F
+  exact C02_bool_duality_cross_box_disk F [3, 3] (crossElem 2 1) (Or.inl ⟨1, rfl, rfl⟩) (by decide)
+    (by unfold RangeImg DT.InRange; decide)
+
+example :
+    let f : Img Int := { shape := [2, 3], data := #[5, 9, 5, 7, 7, 250] }
+    let g : Img Int := { shape := [2, 3], data := #[6, 6, 6, 6, 255, 0] }
+    let sup := support [3, 5] (Array.replicate 15 1) false
+    ∀ i, i < 6 →
+      (g.data.getD i 0 ≤ (cerodeModel (dtU 8) f g sup).data.getD i 0 ∧
+       (cerodeModel (dtU 8) f g sup).data.getD i 0 ≤ max (f.data.getD i 0) (g.data.getD i 0)) ∧
+      (min (f.data.getD i 0) (g.data.getD i 0) ≤ (cdilateModel (dtU 8) f g sup 4).data.getD i 0 ∧
+       (cdilateModel (dtU 8) f g sup 4).data.getD i 0 ≤ g.data.getD i 0) := by
+  intro f g
+  exact C02_cerode_cdilate_bounds_cross_box_disk (dtU 8) (Or.inl ⟨wf_u8, rfl⟩) f g [3, 5]
+    (Array.replicate 15 1) (Or.inr (Or.inr ⟨rfl, by decide, by decide⟩)) rfl (by decide)
+    (by unfold RangeImg DT.InRange; decide) (by unfold RangeImg DT.InRange; decide) 4
